@@ -35,9 +35,14 @@ Theorem C14_core_indicators_one_entry_per_candle :
   length_preserving (donchian_upper p) /\ length_preserving (donchian_middle p) /\ length_preserving (donchian_lower p) /\ length_preserving (willr p) /\
   length_preserving (stoch_k p) /\ length_preserving typprice /\ length_preserving medprice.
 Proof. exact core_indicators_one_entry_per_candle. Qed.
+Theorem C14_mfi_keltner_one_entry_per_candle :
+  forall (p : nat) (m : Qc),
+  length_preserving (mfi p) /\ length_preserving (keltner_upper p m) /\ length_preserving (keltner_middle p) /\ length_preserving (keltner_lower p m).
+Proof. exact mfi_keltner_one_entry_per_candle. Qed.
 
 Print Assumptions C14_sequential_is_whole_series.
 Print Assumptions C14_single_is_last_of_sequential.
 Print Assumptions C14_single_on_long_input_is_sequential_on_trailing_window.
 Print Assumptions C14_state_machines_one_entry_per_input.
 Print Assumptions C14_core_indicators_one_entry_per_candle.
+Print Assumptions C14_mfi_keltner_one_entry_per_candle.
